@@ -1169,7 +1169,7 @@ theorem bud_wtrans {D : Int} {β : Nat → Int} {b b' : BState} (hb : Bud D β b
       refine ⟨fun c' hc' => ?_, ?_⟩
       · first
           | (simp [WPc.cmd?, finishCmd, rejectCmd] at hc'; done)
-          | (simp only [WPc.cmd?, finishCmd, rejectCmd, Option.some.injEq] at hc'; subst hc'; exact hw0.1 _ rfl)
+          | (simp only [WPc.cmd?, Option.some.injEq] at hc'; subst hc'; exact hw0.1 _ rfl)
       · first
           | trivial
           | exact hw0.2
@@ -1680,8 +1680,11 @@ theorem pcstep_danger {b b' : BState} {i : Nat} {pc pc' : CPc} {k : Nat} (h : Pc
     (hd : pc.danger k = false) : pc'.danger k = false := by
   cases h
   case idNext k' v w ttl _ => cases ttl <;> simpa [CPc.danger, Cmd.danger] using hd
-  case upAbsentPut k' v w ttl rm val weight _ hv _ _ => subst hv; simpa [CPc.danger] using hd
-  case startUpsert k' v w ttl rm => cases v <;> simpa [CPc.danger, Req.danger] using hd
+  case upAbsentPut k' v w ttl rm val weight _ hv _ _ => subst hv; simp [CPc.danger] at hd ⊢; exact hd
+  case startUpsert k' v w ttl rm =>
+    cases v with
+    | none => rfl
+    | some x => simpa [CPc.danger, Req.danger] using hd
   all_goals first
     | rfl
     | simpa [CPc.danger, Req.danger, Cmd.danger] using hd
@@ -2611,8 +2614,8 @@ theorem upsertW_some (cfg : Cfg) (v : Nat) (w : Option Int) (ttl : Option Nat) :
   cases w <;> simp [upsertW]
 
 theorem wA1_step {cfg : Cfg} {now0 : Nat} {seeds : List Nat} {clients : Nat} {h : List (BState × Act)} {b b' : BState}
-    {a : Act} {o o' : Oracle} {k v j p₀ : Nat} (h1 : WA1 k v j p₀ h b) (hp : p₀ < h.length)
-    (hr : Reach cfg now0 seeds clients b) (hns : NoShut b) (hns' : NoShut b') (hdi : DeadInv b) (hsf : SoftInv k b)
+    {a : Act} {o o' : Oracle} {k v j p₀ : Nat} (h1 : WA1 k v j p₀ h b)
+    (hr : Reach cfg now0 seeds clients b) (hns : NoShut b) (hns' : NoShut b') (hsf : SoftInv k b)
     (hE : EvInv b k) (hlive : LiveK k b) (hs : stepB b a o = .ok (b', o'))
     (ha : ∀ i r, a = .issue i r → r.danger k = false) : WPhase k v j p₀ ((b, a) :: h) b' := by
   obtain ⟨pc, hpcj, hkv⟩ := h1.pc
@@ -2896,7 +2899,7 @@ theorem wphase_run {cfg : Cfg} {now : Nat} {seeds : List Nat} {clients : Nat} {s
         intro i r e; subst e; exact hnd h1.length b1 i r hlt hlast
       refine ⟨?_, evinv_step_live hr1 hE1 hl1 hn'.flag hs⟩
       cases hph with
-      | calling hA1 => exact wA1_step hA1 hlt hr1 hn1 hn' hd1 (hs1 k) hE1 hl1 hs ha
+      | calling hA1 => exact wA1_step hA1 hr1 hn1 hn' (hs1 k) hE1 hl1 hs ha
       | queued hd hA2 => exact wA2_step hA2 hlt hr1 hn1 hn' hE1 hl1 hs ha
       | kept hk => exact .kept (kept_step hr1 hk hn1 hn' hev1 hl1 hs ha)
       | failed hD => exact .failed (wD_step hD hlt hn1 hd1 hs ha)
@@ -2963,7 +2966,7 @@ theorem runH_at_append {b0 b : BState} {h : List (BState × Act)} (hrun : RunH b
 
 theorem sub_append (h0 : List (BState × Act)) : ∀ h1 : List (BState × Act), Sub h0 (h1 ++ h0)
   | [] => Sub.refl h0
-  | y :: h1 => (sub_append h0 h1).trans (Sub.cons _ _)
+  | _ :: h1 => (sub_append h0 h1).trans (Sub.cons _ _)
 
 /-- a return recorded in a run is a return of the run up to any later action -/
 theorem returned_restrict {h0 h : List (BState × Act)} {b s₁ : BState} {a₁ : Act} {i q : Nat} {out : Out}
